@@ -42,6 +42,10 @@ KINDS = [
     ('props.C15', 'channel_source_harness', {'n': 2}, None),
     ('props.C19', 'replication_algebra', {}, None),
     ('props.C10', 'state_lock_harness', {}, None),
+    ('props.C07', 'agg_plan_harness', {'builder': 'fold_assoc', 'op': 'add', 'nvals': 3, 'R': 2}, None),
+    ('props.C07', 'agg_plan_harness', {'builder': 'group_by_fold', 'op': 'max', 'nvals': 3, 'R': 2}, None),
+    ('props.C07', 'agg_plan_harness', {'builder': 'group_by+reduce', 'op': 'add', 'nvals': 3, 'R': 2}, None),
+    ('props.C07', 'agg_plan_harness', {'builder': 'group_by_min_element', 'op': 'add', 'nvals': 3, 'R': 2}, None),
     ('props.C03', 'wiring_harness', {'builder': 'ship_hash'}, None),
     ('props.C03', 'wiring_harness', {'builder': 'group_by'}, None),
     ('props.C03', 'wiring_harness', {'builder': 'broadcast'}, None),
